@@ -20,7 +20,14 @@ Statement of the property, and what is proved of it:
 * a pending request never ends with a fabricated result (`c16_no_fabricated_result`,
   `c16_silent_child_times_out`), stated over "the response lines the child wrote"; the delivery
   path is C05 (reader) ∘ C01 (await), composed by the lead;
-* an unstartable command makes entering raise (`c16_bad_command_raises`).
+* an unstartable command makes entering raise (`c16_bad_command_raises`);
+* the WHOLE exit (`leave`: what is done before the tasks are cancelled, then `exit`): bounded for
+  every backlog of queued output iff the wait for the stdin writer is bounded
+  (`c16_leave_bounded`, `c16_leave_sound`; an unbounded wait never returns against a child that
+  does not read: `c16_unbounded_flush_never_returns`, `c16_unbounded_flush_waits_for_child`);
+* cancellation WHILE the context is being entered leaves no child running unless `__aenter__` has
+  a cancellable await between the spawn and ownership (`c16_entry_cancel_no_orphan`,
+  `c16_entry_gap_orphans`).
 
 PARTIAL BY NATURE — carried by the correspondence run with real children only:
   "no additional open file descriptor" (the model has no descriptors), that cancelling the
@@ -108,6 +115,73 @@ theorem c16_live_child_signalled (os : OS) (p : ExitPath) (c : ChildSpec) (hc : 
     · split <;> simp
   · split <;> simp
 
+/-! ## The whole exit (`leave`): a step before the task group is cancelled, and the entry -/
+
+theorem flushPhase_le (d : Design) (w : Nat) (hw : d.flushWait = some w) (p : ExitPath) (c : ChildSpec)
+    (l : Load) : ∃ f, flushPhase d p c l = some f ∧ f ≤ w := by
+  unfold flushPhase
+  split
+  · exact ⟨0, rfl, Nat.zero_le _⟩
+  · rw [hw]
+    cases c.selfExit with
+    | none => exact ⟨w, rfl, Nat.le_refl _⟩
+    | some s => exact ⟨min w s, rfl, Nat.min_le_left _ _⟩
+
+/-- **Bounded, everything included.**  If what the exit does before cancelling its tasks (waiting
+for the stdin writer) is bounded by `w`, then for EVERY exit path, child, amount of queued output
+and OS — shielded or not — `__aexit__` returns, within `w + g₁ + g₂`. -/
+theorem c16_leave_bounded (d : Design) (w : Nat) (hw : d.flushWait = some w) (os : OS) (p : ExitPath)
+    (c : ChildSpec) (l : Load) :
+    ∃ t, leave d os p c l = some t ∧ t.duration ≤ w + (graceTermMs + graceKillMs) := by
+  obtain ⟨f, hf, hle⟩ := flushPhase_le d w hw p c l
+  simp only [leave, hf]
+  exact ⟨_, rfl, Nat.add_le_add hle (c16_bounded _ _ _ _)⟩
+
+/-- The design the property asks for (no wait, shielded): within two seconds and reaped, for every
+exit path, every child and every backlog of queued output. -/
+theorem c16_leave_sound (os : OS) (p : ExitPath) (c : ChildSpec) (l : Load)
+    (hkill : os.killDelay < graceKillMs) (hwait : os.waitReaps = true) :
+    ∃ t, leave Design.sound os p c l = some t ∧ t.duration ≤ 2000 ∧ t.child = .reaped := by
+  obtain ⟨f, hf, hle⟩ := flushPhase_le Design.sound 0 rfl p c l
+  have hf0 : f = 0 := by omega
+  subst hf0
+  simp only [leave, hf]
+  refine ⟨_, rfl, ?_, ?_⟩
+  · show 0 + _ ≤ 2000
+    rw [Nat.zero_add]
+    exact c16_bounded_two_seconds _ _ _ _
+  · exact c16_reaped os p _ hkill hwait
+
+/-- **An unbounded wait for the writer, as a theorem.**  If the exit waits without bound for the
+stdin writer, then on a non-cancelled path, with a child that does not read, more queued than
+pipe and buffer hold, and a child that does not end by itself, `__aexit__` NEVER returns —
+whatever the OS, shielded or not. -/
+theorem c16_unbounded_flush_never_returns (d : Design) (hd : d.flushWait = none) (os : OS) (p : ExitPath)
+    (c : ChildSpec) (l : Load) (hp : p.cancelled = false) (hb : writerBlocked c l = true)
+    (hs : c.selfExit = none) : leave d os p c l = none := by
+  simp [leave, flushPhase, hp, hb, hd, hs]
+
+/-- ... and when the child does end by itself after `s` ms, the exit lasts at least that long:
+there is no bound that does not depend on the child. -/
+theorem c16_unbounded_flush_waits_for_child (d : Design) (hd : d.flushWait = none) (os : OS) (p : ExitPath)
+    (c : ChildSpec) (l : Load) (hp : p.cancelled = false) (hb : writerBlocked c l = true) (s : Nat)
+    (hs : c.selfExit = some s) : ∃ t, leave d os p c l = some t ∧ s ≤ t.duration := by
+  simp [leave, flushPhase, hp, hb, hd, hs]
+
+/-- **Cancellation while entering.**  Without a cancellable await between the spawn and the point
+from which the child is owned, a cancellation delivered at ANY point of entering leaves no child
+running: either nothing was spawned, or the spawn was undone, or the context is entered and is
+then left by `leave` on a cancelled path (`c16_leave_sound`). -/
+theorem c16_entry_cancel_no_orphan (d : Design) (h : d.entryGap = false) (cp : CancelPoint) :
+    cancelledEntry d cp ≠ some .running := by
+  cases cp <;> simp [cancelledEntry, h]
+
+/-- With such an await (e.g. a start-up probe after the spawn) a cancellation landing there leaves
+the child running and unowned. -/
+theorem c16_entry_gap_orphans (d : Design) (h : d.entryGap = true) :
+    cancelledEntry d .afterSpawn = some .running := by
+  simp [cancelledEntry, h]
+
 /-- **No fabricated result.**  Whatever a pending request returns is the payload of a response
 line with its id that the child wrote. -/
 theorem c16_no_fabricated_result {α : Type} (written : List (Nat × α)) (i : Nat) (p : α)
@@ -165,6 +239,23 @@ example : (exit true ⟨5000, true⟩ .normal (childSpec .ignoreTerm .before)).c
 /-- instance of `c16_reaped`: a flooding child, left by a timeout with a request in flight -/
 example : (exit true ⟨5, true⟩ .timeoutAround (childSpec .flood .inflight)).child = .reaped :=
   c16_reaped ⟨5, true⟩ .timeoutAround (childSpec .flood .inflight) (by decide) rfl
+
+/-- a child that never reads, 640 kB queued, normal exit: the sound design is done at once -/
+example : leave Design.sound ⟨5, true⟩ .normal (childSpec .neverReads .before) ⟨640000, 131072⟩
+    = some { signals := [(0, .term)], duration := 0, child := .reaped } := by decide
+
+/-- the same with an unbounded wait for the writer and a child that ends after 8 s: 8 s -/
+example : (leave ⟨true, none, false⟩ ⟨5, true⟩ .normal
+      { childSpec .neverReads .before with selfExit := some 8000 } ⟨640000, 131072⟩).map (·.duration)
+    = some 8000 := by decide
+
+/-- ... and never, with a real server -/
+example : leave ⟨true, none, false⟩ ⟨5, true⟩ .exception (childSpec .neverReads .inflight) ⟨640000, 131072⟩
+    = none := by decide
+
+/-- the hypotheses of `c16_unbounded_flush_never_returns` are needed: a small backlog fits the pipe -/
+example : (leave ⟨true, none, false⟩ ⟨5, true⟩ .normal (childSpec .neverReads .before) ⟨2000, 131072⟩).isSome
+    = true := by decide
 
 example : pending [(1, "a"), (2, "b")] 2 = .returned "b" := by simp [pending]
 example : pending [(1, "a")] 2 = (.timedOut : ReqOutcome String) :=
